@@ -87,16 +87,16 @@ func (o *IntOperation) LE(left Operand, right Operand) (bool, error) {
 }
 
 func (o *IntOperation) IN(left Operand, right Operand) (bool, error) {
-	leftVal, ok := left.(int)
-	if !ok {
-		return false, newErrInvalidOperand(left, leftVal)
-	}
 	rightVal, ok := right.([]int)
 	if !ok {
 		return false, newErrInvalidOperand(right, rightVal)
 	}
 	for _, num := range rightVal {
-		if num == leftVal {
+		found, err := o.EQ(left, num)
+		if err != nil {
+			return false, err
+		}
+		if found {
 			return true, nil
 		}
 	}
